@@ -112,6 +112,13 @@ def record(rng, n):
         g = run_find(k, DocumentedFilter(kmers_of(marked, k)))
         cases.append({"kind": "find", "src": "pred", "cfg": {"k": k, "run": 0, "gc": [], "motifs": []}, "pred": marked, "k": k,
                       "out": g["out"], "verts": g["verts"]})
+    # every user predicate at observed length 1 (the k-mer handed to the filter is a single nucleotide)
+    for bits in range(16):
+        marked = [v for v in range(4) if bits >> v & 1]
+        for flt in (DocumentedFilter(kmers_of(marked, 1)), LocalStyleFilter(kmers_of(marked, 1))):
+            g = run_find(1, flt)
+            cases.append({"kind": "find", "src": "pred", "cfg": {"k": 1, "run": 0, "gc": [], "motifs": []}, "pred": marked, "k": 1,
+                          "out": g["out"], "verts": g["verts"]})
     # history: the all-marked mask, the caller edits the returned graph in place, the all-marked mask again
     for k in (1, 2, 3):
         full = list(range(4 ** k))
